@@ -56,6 +56,14 @@ def fault_cases():
         cases.append(("one-ok-one-missing-pattern/" + pre, base + pref, ["cfg/*.yaml", "nothing/*.yaml"], "out/gen.go"))
         cases.append(("second-file-broken/" + pre, base + pref + [{"path": "cfg/b.yaml", "content": "a: [\n"}], ["cfg/*.yaml"], "out/gen.go"))
         cases.append(("empty-file/" + pre, pref + [{"path": "cfg/a.yaml", "content": ""}], ["cfg/*.yaml"], "out/gen.go"))
+    # -o is a symbolic link: dangling into a missing directory (the write fails: the link stays), dangling but creatable (written through it),
+    # to an existing file (overwritten through it), to a directory; with a valid and with an invalid configuration
+    for cn, ctext in (("ok", VALID), ("defect:grammar", DEFECTS["grammar"]), ("defect:format-fails-keyword-pkg", DEFECTS["format-fails-keyword-pkg"])):
+        base_ = [{"path": "cfg/a.yaml", "content": ctext}]
+        cases.append(("output-link-dangling-nodir/" + cn, base_ + [{"path": "out.go", "content": "", "link": "nodir/real.go"}], ["cfg/*.yaml"], "out.go"))
+        cases.append(("output-link-dangling-creatable/" + cn, base_ + [{"path": "out.go", "content": "", "link": "real.go"}], ["cfg/*.yaml"], "out.go"))
+        cases.append(("output-link-to-file/" + cn, base_ + [{"path": "real.go", "content": "OLD\n"}, {"path": "out.go", "content": "", "link": "real.go"}], ["cfg/*.yaml"], "out.go"))
+        cases.append(("output-link-to-dir/" + cn, base_ + [{"path": "d", "content": "", "dir": True}, {"path": "out.go", "content": "", "link": "d"}], ["cfg/*.yaml"], "out.go"))
     cases.append(("missing-output-dir", [{"path": "cfg/a.yaml", "content": VALID}], ["cfg/*.yaml"], "nodir/gen.go"))
     cases.append(("output-is-dir", [{"path": "cfg/a.yaml", "content": VALID}, {"path": "out/gen.go", "content": "", "dir": True}], ["cfg/*.yaml"], "out/gen.go"))
     cases.append(("output-is-dir+defect", [{"path": "cfg/a.yaml", "content": DEFECTS["grammar"]}, {"path": "out/gen.go", "content": "", "dir": True}], ["cfg/*.yaml"], "out/gen.go"))
@@ -95,7 +103,7 @@ def run(tier, seed, replay):
     by_key = {}
     for sp, ob in zip(specs, obs):
         what = (sp.get("what") or ["random"])[0]
-        cls = what.split("/")[0]
+        cls = what.split("/")[0] if not what.startswith("output-link") else what
         dist[cls] = dist.get(cls, 0) + 1
         rep = common.slim(sp, ob)
         ex = ob.get("exit")
@@ -113,7 +121,7 @@ def run(tier, seed, replay):
             inputs = [f for f in sp["files"] if f["path"] not in (sp["output"], "out") and not f.get("dir")]
             by_key.setdefault(json.dumps([inputs, sp["patterns"], bool(sp["flags"].get("stub")), sp.get("version")], sort_keys=True), set()).add(after.get("hash"))
         else:
-            if (after["exists"], after["is_dir"], after.get("hash"), after["size"]) != (before["exists"], before["is_dir"], before.get("hash"), before["size"]):
+            if (after["exists"], after["is_dir"], after.get("hash"), after["size"], after.get("link")) != (before["exists"], before["is_dir"], before.get("hash"), before["size"], before.get("link")):
                 out.violation("failure-touches-output:" + cls, "exit 1 but the -o path changed (%s -> %s)" % (before, after), rep)
             errs = ob.get("errors") or []
             if not sp["flags"].get("quiet"):
